@@ -807,7 +807,7 @@ Proof.
       * simpl. rewrite <- app_assoc. reflexivity.
       * apply nocheck_app; apply N1; exact I.
     + destruct B3 as [t [j [_ [_ [_ [_ E']]]]]]. rewrite E'. intros H. exfalso.
-      eapply NO with (E := [EvMount (S (seq s)) l true]); [reflexivity|apply N1; exact I|exact H].
+      eapply NO with (E := [EvMount (S (seq s)) l true]); [ | |exact H]; [reflexivity|apply N1; exact I].
   - (* View *)
     unfold do_view. destruct (create_snapshot s KView key parent l) as [s1 [e|sn]] eqn:CS.
     + simpl. intros H. exfalso. apply create_err in CS. destruct CS as [E' [Sh [_ [_ [_ CT]]]]]. destruct Sh.
@@ -835,14 +835,14 @@ Proof.
               | None => false
               end); [simpl; intros H; exfalso; eapply NIL; eauto|].
     set (s1 := emit (set_meta s (del (meta s) key)) (EvMetaRemove (i_id i))).
-    destruct (async s); simpl; intros H; exfalso.
-    + eapply NO with (E := [EvMetaRemove (i_id i)]); [reflexivity|apply N1; exact I|exact H].
+    destruct (async s); cbn [fst snd]; intros H; exfalso.
+    + eapply NO with (E := [EvMetaRemove (i_id i)]); [ | |exact H]; [reflexivity|apply N1; exact I].
     + destruct (cleanup_nocheck ubad s1 (cleanup_list s1 false)) as [E [L N]].
       eapply NO with (E := [EvMetaRemove (i_id i)] ++ E); [| |exact H].
       * rewrite L. unfold s1. simpl. rewrite <- app_assoc. reflexivity.
       * apply nocheck_app; [apply N1; exact I|exact N].
   - (* Cleanup *)
-    unfold do_cleanup. destruct (closed s); simpl; intros H; exfalso; [eapply NIL; eauto|].
+    unfold do_cleanup. destruct (closed s); cbn [fst snd]; intros H; exfalso; [eapply NIL; eauto|].
     destruct (cleanup_nocheck ubad s (cleanup_list s false)) as [E [L N]]. eapply NO; eauto.
   - (* Update *)
     unfold do_update. destruct (closed s); [simpl; intros H; exfalso; eapply NIL; eauto|].
@@ -852,10 +852,10 @@ Proof.
     destruct (lookup (meta s) nm); simpl; intros H; exfalso; eapply NIL; eauto.
   - (* Close *)
     unfold do_close. destruct (closed s); [simpl; intros H; exfalso; eapply NIL; eauto|].
-    destruct (Nat.eqb (seq s) 0); simpl; intros H; exfalso.
-    + eapply NO with (E := [EvClose]); [reflexivity|apply N1; exact I|exact H].
+    destruct (Nat.eqb (seq s) 0); cbn [fst snd]; intros H; exfalso.
+    + eapply NO with (E := [EvClose]); [ | |exact H]; [reflexivity|apply N1; exact I].
     + destruct (cleanup_nocheck ubad (emit s EvClose) (cleanup_list (emit s EvClose) true)) as [E [L N]].
       eapply NO with (E := [EvClose] ++ E); [| |exact H].
-      * rewrite L. simpl. rewrite <- app_assoc. reflexivity.
+      * unfold set_closed. cbn [log]. rewrite L. unfold emit. cbn [log]. rewrite <- app_assoc. reflexivity.
       * apply nocheck_app; [apply N1; exact I|exact N].
 Qed.
